@@ -44,6 +44,8 @@ pub struct TrackState {
     /// the element-layout check of `lifecycle_errors` skips them
     pub foreign: bool,
     foreign_serials: Vec<u32>,
+    /// `as_mut_ptr` calls per storage serial
+    pub as_mut_by_serial: Vec<u32>,
     /// when set, `expand` (amortised growth) grows by doubling like Heap; always true – kept for clarity
     pub relocations: u32,
 }
@@ -170,6 +172,9 @@ impl TrackState {
         }
         errs
     }
+    pub fn next_serial(&self) -> u32 { self.next_serial }
+    /// `as_mut_ptr` calls on storages built since serial `from`
+    pub fn as_mut_since(&self, from: u32) -> u32 { self.as_mut_by_serial.iter().skip(from as usize).sum() }
     pub fn live_serials(&self) -> Vec<u32> { self.live.iter().map(|(s, _)| *s).collect() }
     /// forget everything (leaked blocks of faulted runs are freed here)
     pub fn reset(&mut self) {
@@ -181,6 +186,7 @@ impl TrackState {
         self.relocations = 0;
         self.foreign = false;
         self.foreign_serials.clear();
+        self.as_mut_by_serial.clear();
     }
 }
 
@@ -238,7 +244,12 @@ impl TrackMem {
 
 impl Mem for TrackMem {
     #[inline] fn as_ptr(&self) -> *const u8 { self.ptr }
-    #[inline] fn as_mut_ptr(&mut self) -> *mut u8 { AS_MUT_CALLS.with(|c| c.set(c.get() + 1)); self.ptr }
+    #[inline] fn as_mut_ptr(&mut self) -> *mut u8 {
+        AS_MUT_CALLS.with(|c| c.set(c.get() + 1));
+        let s = self.serial as usize;
+        with_ts(|ts| { if ts.as_mut_by_serial.len() <= s { ts.as_mut_by_serial.resize(s + 1, 0); } ts.as_mut_by_serial[s] += 1; });
+        self.ptr
+    }
     #[inline] fn element_layout(&self) -> Layout { self.layout }
     #[inline] fn size(&self) -> usize { self.cap }
     fn expand(&mut self, additional: usize) {
